@@ -167,6 +167,60 @@ def gen_seq(rng):
     return "seq %d %d %d %d %x %x %x %x %s %s" % (arch, cc, win, arg_stack, used[0], used[1], used[2], used[3], pm, ",".join(ops) or "-")
 
 
+def gen_ras(rng, wild=False):
+    """slots for RAStackAllocator: size:alignment:flags:use_count"""
+    n = rng.choice((0, 1, 2, 3, 5, 8, 14))
+    out = []
+    for _ in range(n):
+        size = rng.choice((1, 2, 4, 4, 8, 8, 16, 32, 64, rng.randrange(1, 200), 4096))
+        align = rng.choice((1, 2, 4, 8, 16, 32, 64)) if rng.random() < 0.4 else min(64, 1 << (size.bit_length() - 1))
+        flags = (1 if rng.random() < 0.7 else 0) | (2 if rng.random() < 0.1 else 0)
+        if wild and rng.random() < 0.2:
+            align = rng.choice((0, 3, 12, 128))
+        out.append("%d:%d:%d:%d" % (size, align, flags, rng.choice((0, 1, 2, 5, 20, 1000))))
+    return "ras " + (",".join(out) or "-")
+
+
+def run_ras(res, h, rng, n):
+    """RAStackAllocator: model placement in the implementation's sort order + the slot-layout monitor."""
+    ops = ["ras 4:4:1:3,16:16:1:1,8:8:1:10,1:1:1:2,32:32:0:0,4:4:3:1,2:2:1:7,100:4:0:0"]
+    ops += [gen_ras(rng) for _ in range(n)] + [gen_ras(rng, wild=True) for _ in range(n // 5)]
+    impl, rc, err = vlib.run_lines([str(h)], ops)
+    if rc != 0 or len(impl) != len(ops):
+        res.violation("harness aborted on RAStackAllocator ops rc=%s: %s" % (rc, err[-1200:]), {"ops": ops[:20], "stderr": err[-3000:]}, True,
+                      key="harness-abort")
+        return
+    m1, m2, idx = [], [], []
+    for i, (o, a) in enumerate(zip(ops, impl)):
+        if not a.startswith("ok "):
+            continue
+        w = a.split()
+        m1.append("rasm %s | %s" % (o[4:], " ".join(t.split(":")[0] for t in w[3:]) or "-"))
+        m2.append("rasmon %s | %s" % (o[4:], " ".join(w[1:])))
+        idx.append(i)
+    o1, r1, _ = vlib.run_model(PID, m1)
+    o2, r2, _ = vlib.run_model(PID, m2)
+    if len(o1) != len(idx) or len(o2) != len(idx):
+        res.violation("driver protocol failure on RAStackAllocator ops", {}, False, key="protocol")
+        return
+    asc = 0
+    for k, i in enumerate(idx):
+        ws = [int(t.split(":")[1]) for t in impl[i].split()[3:]]
+        asc += ws == sorted(ws)
+        judgeable = all(int(t.split(":")[1]) in (1, 2, 4, 8, 16, 32, 64) and int(t.split(":")[0]) > 0 for t in ops[i][4:].split(",")) if ops[i] != "ras -" else True
+        if o2[k] != "good" and judgeable:
+            res.violation("RAStackAllocator slot layout violates C07 (hand-over) on %r: monitor says %s; implementation answered %s"
+                          % (ops[i], o2[k], impl[i][:500]), {"ops": [ops[i]], "monitor": o2[k]}, True, key="rastack:" + o2[k].split()[1])
+            break
+        if o1[k] != impl[i]:
+            res.violation("correspondence RAStack model/implementation differs at %r: impl=%s model=%s" % (ops[i], impl[i][:400], o1[k][:400]),
+                          {"ops": [ops[i]], "impl": impl[i], "model": o1[k], "unchecked": "Model/RAStack.lean ~ rastack.cpp"}, False, key="corr-rastack")
+            break
+    res.coverage["rastack"] = {"ops": len(ops), "judged": len(idx), "sorted_ascending_by_weight": asc,
+                               "note": "the comparator of step 2 sorts ascending although the comments say descending (layout quality only)"}
+    res.coverage["evaluations"] += len(ops)
+
+
 def sweep_ops(tier):
     """Every CallConvId value (valid or not) x every architecture x both platforms x a fixed battery of frames."""
     out = []
@@ -400,6 +454,8 @@ def run(res):
     res.coverage["traces_validated_against_impl"] = len(ops)
     res.add_samples([{"op": ops[i], "impl": impl[i][:600], "model_equal": impl[i] == model[i], "monitor": mon[i]}
                      for i in (0, 4, len(ops) // 3, len(ops) // 2, len(ops) - 1)])
+
+    run_ras(res, h, rng, 1500 if res.tier == "quick" else 30000)
 
     reported = set()
     for i, m in bad:
